@@ -230,7 +230,10 @@ def _run(case: dict, env: core.Env, fs: Any, r: random.Random) -> None:
             tdb = db if q else D
             if tdb is not None and any(j != i and ctx[j] == [tdb, sc] for j in range(len(conns))):
                 continue  # see ASSUMPTIONS
-            sql = f"DROP SCHEMA {name_sql(1, '', db, sc) if q else _spell(r, sc)}"
+            if_exists = r.random() < 0.4
+            sql = f"DROP SCHEMA {'IF EXISTS ' if if_exists else ''}{name_sql(1, '', db, sc) if q else _spell(r, sc)}"
+            if if_exists and tdb is not None and tdb in cat and sc not in cat[tdb]:
+                continue  # a no-op by definition
             if tdb is None:
                 fail = (q, "90105")
             elif tdb not in cat or sc not in cat[tdb]:
